@@ -22,7 +22,7 @@ import (
 	"google.golang.org/protobuf/reflect/protoregistry"
 	"larking.io/larking"
 
-	"verif/engines/proxy/be"
+	be "verif/internal/backend"
 	"verif/internal/mon"
 	"verif/internal/vschema"
 	"verif/internal/wire"
@@ -75,6 +75,24 @@ func filesV2() *vschema.File {
 	}}}}
 }
 
+// filesD is the file of the per-worker back-end "bd": TWO services in one
+// file, in three revisions. rev 2 adds a binding to D1.Get, rev 3 is invalid
+// (D2.Get binds an unknown field) and must be refused.
+func filesD(rev int) *vschema.File {
+	d1 := get("/rs/d1/{a}")
+	if rev == 2 {
+		d1 = with(get("/rs/d1/{a}"), get("/rs/d1v2/{a}"))
+	}
+	d2 := get("/rs/d2/{a}")
+	if rev == 3 {
+		d2 = get("/rs/d2/{no_such_field}")
+	}
+	return &vschema.File{Path: "vf/rsd.proto", Pkg: "vf.rs", Services: []vschema.Service{
+		{Name: "D1", Methods: []vschema.Method{{Name: "Get", In: "vf.Req", Out: "vf.Rsp", Rule: d1}}},
+		{Name: "D2", Methods: []vschema.Method{{Name: "Get", In: "vf.Req", Out: "vf.Rsp", Rule: d2}}},
+	}}
+}
+
 // serviceConfig adds routes through ServiceConfigOption: they belong to the
 // method like its annotations, whoever serves it.
 func serviceConfig() *serviceconfig.Service {
@@ -112,7 +130,7 @@ type Env struct {
 	Files   *protoregistry.Files // for the local service
 }
 
-var svcOf = map[string]string{"b1": "A", "b2": "A", "b4": "A", "b3": "B", "b3x": "B", "bc": "C", "local": "A"}
+var svcOf = map[string]string{"b1": "A", "b2": "A", "b4": "A", "b3": "B", "b3x": "B", "bc": "C", "local": "A", "bd": "D"}
 
 // tagOf is the tag the provider's replies carry: b3x is another connection
 // to the server behind b3.
@@ -199,6 +217,10 @@ type Worker struct {
 	hc     *http.Client
 	mu     sync.Mutex
 	panics []*mon.PanicInfo
+	// bd is this worker's own back-end whose reflection revision the
+	// history switches (shared back-ends cannot change under other workers)
+	bd  *be.Backend
+	fdD [4]protoreflect.FileDescriptor
 }
 
 // ServeHTTP forwards to the current Mux. A panic is recorded for the history
@@ -237,10 +259,23 @@ func NewWorker(e *Env) (*Worker, error) {
 		return nil, err
 	}
 	w.hc = &http.Client{Transport: &http.Transport{DisableCompression: true, MaxIdleConnsPerHost: 4}}
+	for rev := 1; rev <= 3; rev++ {
+		if w.fdD[rev], err = filesD(rev).Build(); err != nil {
+			w.Close()
+			return nil, err
+		}
+	}
+	if w.bd, err = be.Start("bd", true, be.Svc{SD: w.fdD[1].Services().Get(0), Impl: tagged{"bd"}}, be.Svc{SD: w.fdD[1].Services().Get(1), Impl: tagged{"bd"}}); err != nil {
+		w.Close()
+		return nil, err
+	}
 	return w, nil
 }
 
 func (w *Worker) Close() {
+	if w.bd != nil {
+		w.bd.Close()
+	}
 	w.cc.Close()
 	w.hc.CloseIdleConnections()
 	w.srv.Close()
